@@ -17,10 +17,16 @@ import (
 	"encoding/binary"
 	"fmt"
 	"io"
+	"math/rand/v2"
 	"net"
+	"os"
+	"strings"
+	"sync"
+	"sync/atomic"
 	"time"
 
 	"github.com/AdguardTeam/AdGuardDNS/internal/dnsserver"
+	"github.com/AdguardTeam/AdGuardDNS/internal/dnsserver/netext"
 )
 
 type loopMsg struct {
@@ -233,4 +239,410 @@ func readFrame(c net.Conn) (w []byte, err error) {
 	}
 
 	return append(hdr[:], body...), nil
+}
+
+// ---------------------------------------------------------------------------
+// Round 5: faultLoopbackCampaign.  The same started ServerDNS, but its sockets
+// come from a ListenConfig wrapper (around the production configuration with
+// out-of-band data) whose response writes fail for chosen client addresses:
+// WriteToSession / Write return EPERM, "use of closed network connection" or a
+// deadline error, the way sendmsg does for a firewalled or unreachable client.
+//
+// Phase 1: a client that cannot be written to sends 1-6 queries over UDP or TCP
+// (waited for: the wrapper has seen that many failed writes).  Phase 2: other
+// clients send one message at a time over UDP and TCP.  Verdicts rest on
+// positive events only: a response that arrived is compared with the response
+// of a freshly started (hook-driven) instance, and an OnInvalidMsg event for a
+// message that a freshly started instance decodes and answers is a
+// history-dependent decode.  No event within the wait: counted, no verdict.
+
+type faultNet struct {
+	inner netext.ListenConfig
+
+	mu       sync.Mutex
+	bad      map[string]string // remote address -> fault kind
+	failed   int
+	readLens map[int]int // len(b) of every ReadFromSession call -> count
+}
+
+func (f *faultNet) kindFor(addr net.Addr) string {
+	if addr == nil {
+		return ""
+	}
+	f.mu.Lock()
+	defer f.mu.Unlock()
+	k := f.bad[addr.String()]
+	if k != "" {
+		f.failed++
+	}
+
+	return k
+}
+
+func (f *faultNet) failedWrites() int {
+	f.mu.Lock()
+	defer f.mu.Unlock()
+
+	return f.failed
+}
+
+func faultErr(kind, nw string) error {
+	wf := writeFault{kind: kind}
+
+	return wf.next(nw)
+}
+
+func (f *faultNet) Listen(ctx context.Context, network, address string) (net.Listener, error) {
+	l, err := f.inner.Listen(ctx, network, address)
+	if err != nil {
+		return nil, err
+	}
+
+	return &faultListener{Listener: l, f: f}, nil
+}
+
+func (f *faultNet) ListenPacket(ctx context.Context, network, address string) (net.PacketConn, error) {
+	c, err := f.inner.ListenPacket(ctx, network, address)
+	if err != nil {
+		return nil, err
+	}
+
+	return &faultPacketConn{PacketConn: c, f: f}, nil
+}
+
+type faultListener struct {
+	net.Listener
+	f *faultNet
+}
+
+func (l *faultListener) Accept() (net.Conn, error) {
+	c, err := l.Listener.Accept()
+	if err != nil {
+		return nil, err
+	}
+
+	return &faultConn{Conn: c, f: l.f}, nil
+}
+
+type faultConn struct {
+	net.Conn
+	f *faultNet
+}
+
+func (c *faultConn) Write(p []byte) (int, error) {
+	if k := c.f.kindFor(c.RemoteAddr()); k != "" {
+		return 0, faultErr(k, "tcp")
+	}
+
+	return c.Conn.Write(p)
+}
+
+// faultPacketConn keeps the session interface of the connection it wraps, so
+// the pooled out-of-band buffer stays on the path.
+type faultPacketConn struct {
+	net.PacketConn
+	f *faultNet
+}
+
+func (c *faultPacketConn) ReadFromSession(b []byte) (int, netext.PacketSession, error) {
+	c.f.mu.Lock()
+	c.f.readLens[len(b)]++
+	c.f.mu.Unlock()
+
+	return netext.ReadFromSession(c.PacketConn, b)
+}
+
+func (c *faultPacketConn) WriteToSession(b []byte, s netext.PacketSession) (int, error) {
+	if k := c.f.kindFor(s.RemoteAddr()); k != "" {
+		return 0, faultErr(k, "udp")
+	}
+
+	return netext.WriteToSession(c.PacketConn, b, s)
+}
+
+func (c *faultPacketConn) WriteTo(b []byte, addr net.Addr) (int, error) {
+	if k := c.f.kindFor(addr); k != "" {
+		return 0, faultErr(k, "udp")
+	}
+
+	return c.PacketConn.WriteTo(b, addr)
+}
+
+// countRec is the echo handler with synchronised event counters.
+type countRec struct {
+	*recorder
+	reqs, invalid, panics atomic.Int64
+}
+
+func (c *countRec) OnRequest(context.Context, *dnsserver.QueryInfo, dnsserver.ResponseWriter) {
+	c.reqs.Add(1)
+}
+func (c *countRec) OnInvalidMsg(context.Context) { c.invalid.Add(1) }
+func (c *countRec) OnPanic(context.Context, any) { c.panics.Add(1) }
+
+type faultLoopMsg struct {
+	Net  string `json:"net"`
+	Wire string `json:"wire"`
+	What string `json:"what"`
+	wire []byte
+}
+
+type faultLoopCase struct {
+	Sizes  [2]int          `json:"sizes"`
+	BadNet string          `json:"bad_net"`
+	Kind   string          `json:"kind"`
+	Bad    []*faultLoopMsg `json:"bad_client_msgs"`
+	Good   []*faultLoopMsg `json:"other_clients_msgs"`
+}
+
+// waitFor polls cond (a positive event) for at most d.
+func waitFor(d time.Duration, cond func() bool) bool {
+	end := time.Now().Add(d)
+	for !cond() {
+		if time.Now().After(end) {
+			return false
+		}
+		time.Sleep(200 * time.Microsecond)
+	}
+
+	return true
+}
+
+func (h *harness) faultLoopbackCampaign() {
+	rng := h.o.Rand("fault-loopback")
+	n := 40
+	if h.o.Thorough() {
+		n = 600
+	}
+	ctx := context.Background()
+	for i := 0; i < n; i++ {
+		szs := [][2]int{{512, 512}, {512, 64}, {1232, 512}, {96, 64}}
+		fc := &faultLoopCase{Sizes: szs[rng.IntN(len(szs))], BadNet: []string{"udp", "udp", "tcp"}[rng.IntN(3)],
+			Kind: wfaultKinds[rng.IntN(len(wfaultKinds))]}
+		sz := sizes{fc.Sizes[0], fc.Sizes[1]}
+		fnet := &faultNet{inner: netext.DefaultListenConfigWithOOB(nil), bad: map[string]string{}, readLens: map[int]int{}}
+		rec := &countRec{recorder: newRecorder()}
+		var srv *dnsserver.ServerDNS
+		var err error
+		for try := 0; try < 40; try++ {
+			srv = dnsserver.NewServerDNS(dnsserver.ConfigDNS{
+				ConfigBase: dnsserver.ConfigBase{Name: "floop", Addr: "127.0.0.1:0", Handler: rec, Metrics: rec, ListenConfig: fnet},
+				UDPSize:    sz.udp, TCPSize: sz.tcp, MaxUDPRespSize: 4096,
+			})
+			if err = srv.Start(ctx); err == nil {
+				break
+			}
+		}
+		if err != nil {
+			h.r.Count("floop.skipped_start")
+
+			continue
+		}
+		h.runFaultLoop(rng, fc, sz, srv, fnet, rec)
+		sctx, cancel := context.WithTimeout(ctx, 2*time.Second)
+		_ = srv.Shutdown(sctx)
+		cancel()
+	}
+}
+
+func (h *harness) runFaultLoop(rng *rand.Rand, fc *faultLoopCase, sz sizes, srv *dnsserver.ServerDNS, fnet *faultNet, rec *countRec) {
+	udpAddr, tcpAddr := srv.LocalUDPAddr(), srv.LocalTCPAddr()
+	// Phase 1: the client that cannot be written to.
+	var badConn net.Conn
+	var err error
+	if fc.BadNet == "udp" {
+		badConn, err = net.Dial("udp", udpAddr.String())
+	} else {
+		badConn, err = net.Dial("tcp", tcpAddr.String())
+	}
+	if err != nil {
+		h.r.Count("floop.skipped_dial")
+
+		return
+	}
+	defer func() { _ = badConn.Close() }()
+	fnet.mu.Lock()
+	fnet.bad[badConn.LocalAddr().String()] = fc.Kind
+	fnet.mu.Unlock()
+	k := 1 + rng.IntN(6)
+	for j := 0; j < k; j++ {
+		q := queryOfLen(19+rng.IntN(40), uint16(j))
+		if rng.IntN(4) == 0 {
+			q = mustPack(genQuery(rng))
+		}
+		wire, _ := frame(rng, fc.BadNet, q, 0)
+		{
+			// Only messages that a freshly started server decodes and answers
+			// (a long name does not fit a small UDPSize).
+			fresh := newInst(sz)
+			fres := fresh.exec((&opSpec{Path: fc.BadNet, wire: wire, Pick: -1}).fill())
+			fresh.close()
+			if fres.decode == "invalid" || strings.HasPrefix(fres.decode, "panic:") || len(fres.wrote) == 0 {
+				continue
+			}
+		}
+		fc.Bad = append(fc.Bad, &faultLoopMsg{Net: fc.BadNet, wire: wire, Wire: fmt.Sprintf("%x", wire), What: "valid, response cannot be sent"})
+		if fc.BadNet == "tcp" && j > 0 {
+			// After a failed write the server may be done with the connection:
+			// the client comes back on a new one.
+			_ = badConn.Close()
+			if badConn, err = net.Dial("tcp", tcpAddr.String()); err != nil {
+				break
+			}
+			fnet.mu.Lock()
+			fnet.bad[badConn.LocalAddr().String()] = fc.Kind
+			fnet.mu.Unlock()
+		}
+		before, inv0, req0 := fnet.failedWrites(), rec.invalid.Load(), rec.reqs.Load()
+		if _, err = badConn.Write(wire); err != nil {
+			break
+		}
+		// The handler's error makes the server try a SERVFAIL as well; one
+		// failed write is enough to go on.  These queries are well-formed: an
+		// invalid-message event for one of them is a verdict already.
+		waitFor(3*time.Second, func() bool { return fnet.failedWrites() > before || rec.invalid.Load() > inv0 })
+		if rec.invalid.Load() > inv0 && fnet.failedWrites() == before {
+			fnet.mu.Lock()
+			lens := fmt.Sprint(fnet.readLens)
+			fnet.mu.Unlock()
+			h.r.Violate(fc.BadNet+"-loopback-history-dependent-decode", fmt.Sprintf(
+				"ServerDNS on loopback sockets (UDPSize %d): after %d response(s) to this client failed with %s, its next well-formed %d-byte %s query %s was counted as an invalid message; lengths of the slices the accept loop read into: %s",
+				sz.udp, len(fc.Bad)-1, fc.Kind, len(q), fc.BadNet, clipHex(wire), lens), fc)
+
+			return
+		}
+		if fnet.failedWrites() == before {
+			h.r.Count("floop.failed_write_not_seen")
+			if os.Getenv("C06_DEBUG") != "" {
+				fmt.Fprintf(os.Stderr, "DEBUG failed write not seen: %s %s %x sizes %v inv %d->%d req %d->%d\n", fc.BadNet, fc.Kind, wire, fc.Sizes, inv0, rec.invalid.Load(), req0, rec.reqs.Load())
+			}
+
+			break
+		}
+		h.r.Count("floop.failed_write." + fc.BadNet)
+		// OnRequest comes after the last write attempt of the worker.
+		if !waitFor(3*time.Second, func() bool { return rec.reqs.Load() > req0 }) {
+			h.r.Count("floop.abandoned_out_of_step")
+			if os.Getenv("C06_DEBUG") != "" {
+				fmt.Fprintf(os.Stderr, "DEBUG abandoned phase 1: %s %s %x sizes %v inv %d->%d req %d->%d\n", fc.BadNet, fc.Kind, wire, fc.Sizes, inv0, rec.invalid.Load(), req0, rec.reqs.Load())
+			}
+
+			return
+		}
+	}
+
+	// Phase 2: other clients, one message at a time.
+	m := 3 + rng.IntN(5)
+	for j := 0; j < m; j++ {
+		nw := []string{"udp", "udp", "tcp"}[rng.IntN(3)]
+		path := pUDP
+		if nw == "tcp" {
+			path = pTCP
+		}
+		var msg []byte
+		what := "valid"
+		switch rng.IntN(5) {
+		case 0:
+			msg = mustPack(genQuery(rng))
+		case 1:
+			msg, what = mutate(rng, mustPack(genQuery(rng)), []int{1, 2, 3, 3, 6}[rng.IntN(5)])
+		default:
+			msg = queryOfLen(19+rng.IntN(min(sz.udp, 300)-19), uint16(100+j))
+		}
+		wire, _ := frame(rng, path, msg, 0)
+		gm := &faultLoopMsg{Net: nw, wire: wire, Wire: fmt.Sprintf("%x", wire), What: what}
+		fc.Good = append(fc.Good, gm)
+		fresh := newInst(sz)
+		fres := fresh.exec((&opSpec{Path: path, wire: wire, Pick: -1}).fill())
+		fresh.close()
+		want := stripClosed(fres.resp)
+		// The number of metric events (request / invalid message) a message
+		// causes is what keeps the harness in step with the workers.
+		expect := int64(len(fresh.rec.reqs) + fresh.rec.invalid)
+		freshDecodes := fres.decode != "invalid" && !strings.HasPrefix(fres.decode, "panic:")
+
+		h.r.Count("floop.msg." + nw)
+		h.r.Traces++
+		c, derr := net.Dial(nw, map[string]string{"udp": udpAddr.String(), "tcp": tcpAddr.String()}[nw])
+		if derr != nil {
+			continue
+		}
+		inv0, req0 := rec.invalid.Load(), rec.reqs.Load()
+		_, _ = c.Write(wire)
+		var got string
+		seen := false
+		// Positive events: the server counted the message as a request or as
+		// an invalid message.  Without them (lost, or a worker that is still
+		// busy) the case is abandoned, so that no event is ever taken for the
+		// next message's.
+		if !waitFor(3*time.Second, func() bool { return rec.invalid.Load()+rec.reqs.Load() >= inv0+req0+expect }) {
+			h.r.Count("floop.abandoned_out_of_step")
+			if os.Getenv("C06_DEBUG") != "" {
+				fmt.Fprintf(os.Stderr, "DEBUG abandoned phase 2: %s %x (%s) expect %d sizes %v inv %d->%d req %d->%d\n", nw, wire, what, expect, fc.Sizes, inv0, rec.invalid.Load(), req0, rec.reqs.Load())
+			}
+			_ = c.Close()
+
+			return
+		}
+		if nw == "udp" {
+			if rec.invalid.Load() > inv0 && rec.reqs.Load() == req0 && freshDecodes {
+				fnet.mu.Lock()
+				lens := fmt.Sprint(fnet.readLens)
+				fnet.mu.Unlock()
+				h.r.Violate("udp-loopback-history-dependent-decode", fmt.Sprintf(
+					"ServerDNS on loopback sockets (UDPSize %d): after %d %s response(s) to another client failed with %s, the %d-byte datagram %s (%s) of a new client was counted as an invalid message; a freshly started server decodes it as %q; lengths of the slices the accept loop read into: %s",
+					sz.udp, len(fc.Bad), fc.BadNet, fc.Kind, len(wire), clipHex(wire), what, clip(fres.decode), lens), fc)
+				_ = c.Close()
+
+				return
+			}
+			if want != "" {
+				buf := make([]byte, 65535)
+				_ = c.SetReadDeadline(time.Now().Add(500 * time.Millisecond))
+				if nr, rerr := c.Read(buf); rerr == nil {
+					got, seen = respText([][]byte{buf[:nr]}, false, ""), true
+				}
+			}
+		} else {
+			_ = c.SetReadDeadline(time.Now().Add(500 * time.Millisecond))
+			if want != "" {
+				if w, rerr := readFrame(c); rerr == nil {
+					got, seen = respText([][]byte{w}, true, ""), true
+				}
+			}
+		}
+		_ = c.Close()
+		switch {
+		case seen && got != want:
+			h.r.Violate(path+"-loopback-history-dependent-response", fmt.Sprintf(
+				"ServerDNS on loopback sockets: after %d %s response(s) to another client failed with %s, the response to %s (%s) is %q, a freshly started server answers %q",
+				len(fc.Bad), fc.BadNet, fc.Kind, clipHex(wire), what, clip(got), clip(want)), fc)
+
+			return
+		case seen:
+			h.r.Count("floop.response_checked")
+		case want != "":
+			h.r.Count("floop.response_not_seen")
+		default:
+			h.r.Count("floop.no_response_expected")
+		}
+	}
+	// The receive-pool invariant, seen from the socket: every read of the
+	// accept loop was given a slice of the configured length.
+	fnet.mu.Lock()
+	for l, cnt := range fnet.readLens {
+		if l != sz.udp {
+			h.r.Count("floop.read_into_odd_length")
+			h.r.Disagree("udp-loopback-receive-buffer-length", fmt.Sprintf(
+				"the accept loop read %d time(s) into a slice of %d bytes, the configured UDPSize is %d (the model's receive pools hold buffers of the configured length only)", cnt, l, sz.udp), fc)
+		}
+	}
+	fnet.mu.Unlock()
+	h.r.Case(fmt.Sprintf("floop %v %s %s %d %v", fc.Sizes, fc.BadNet, fc.Kind, len(fc.Bad), func() (w []string) {
+		for _, g := range fc.Good {
+			w = append(w, g.Net+g.Wire)
+		}
+
+		return w
+	}()), true)
 }
